@@ -110,13 +110,6 @@ Definition pack_names (fs : fsmap) : list string :=
 Definition loose_keys (fs : fsmap) : list oid :=
   flat_map (fun p => match p with PLoose o => [o] | _ => [] end) (keys fs).
 
-Fixpoint ids_eqb (a b : list oid) : bool :=
-  match a, b with
-  | [], [] => true
-  | x :: a', y :: b' => (x =? y) && ids_eqb a' b'
-  | _, _ => false
-  end.
-
 Definition loose_ok (fs : fsmap) (o : oid) : bool :=
   match flookup fs (PLoose o) with Some (Whole (DLoose o')) => o =? o' | _ => false end.
 
@@ -340,7 +333,8 @@ Definition pack_is_promisor (fs : fsmap) (n : string) : bool := fexists fs (PPac
 Definition to_repo (g : graph) (fs : fsmap) (old_loose : list oid) (old_packs : list string) : repo :=
   {| objs := g;
      loose := map (fun o => (o, mem o old_loose)) (loose_ids fs);
-     packs := map (fun p => {| p_old := existsb (String.eqb (fst p)) old_packs;
+     packs := map (fun p => {| p_name := (sort_n (snd p), 0);
+                               p_old := existsb (String.eqb (fst p)) old_packs;
                                p_promisor := pack_is_promisor fs (fst p);
                                p_objs := if idx_ok fs (fst p) (snd p) then snd p else [] |}) (pack_files fs);
      roots := ref_roots fs;
